@@ -408,3 +408,16 @@ func modelBinaryRead(fr *frame, a []value) value {
 	*(data.v.(*value)) = mkSym(t, b.Kind())
 	return iface{}
 }
+
+func init() {
+	// msgp's unsafe string/bytes casts
+	reg("github.com/tinylib/msgp/msgp.UnsafeString", func(fr *frame, a []value) value {
+		b := a[0].([]value)
+		ss := make(symStr, len(b))
+		copy(ss, b)
+		return normStr(ss)
+	})
+	reg("github.com/tinylib/msgp/msgp.UnsafeBytes", func(fr *frame, a []value) value {
+		return append([]value{}, toByteValues(a[0])...)
+	})
+}
